@@ -87,6 +87,8 @@ def enum_strategy(n_max=6, max_deg=6, max_terms=6):
                 "pairs": st.one_of(st.none(), st.lists(pair, min_size=1, max_size=3)),
                 "lam": lam_strategy(),
                 "rows": st.lists(st.integers(0, 2 ** 20), min_size=1, max_size=4),
+                # export once, install another mapping with set_mapping, then run the check on the same object
+                "remap": gen.pick((False, 3), (True, 1)),
             })
         return st.integers(0, 9).flatmap(lambda r: gen.label_pool(False, 3 if r else 1, n_max)).flatmap(for_labels)
     return st.sampled_from(KINDS).flatmap(for_kind)
@@ -107,6 +109,29 @@ def build_model(qv, spec):
             return None
         M.refresh()
     return M
+
+
+def maybe_remap(M, spec):
+    """Documented use: conversions follow the mapping in force.  Export once (any caches get filled), then
+    install a different bijection with set_mapping."""
+    if not spec.get("remap"):
+        return False
+    mp = M.mapping
+    n = len(mp)
+    if n < 2:
+        return False
+    t = spec["target"]
+    with warnings.catch_warnings():
+        warnings.simplefilter("ignore")
+        if t in ("to_qubo", "to_quso"):
+            lib(getattr(M, t), what=t + "(first export)")
+        else:
+            lib(getattr(M, t), spec["deg"], what=t + "(first export)")
+    new = {l: n - 1 - i for l, i in mp.items()}
+    lib(M.set_mapping, new, what="set_mapping")
+    if M.mapping != new:
+        raise Violation("set_mapping_not_installed", "asked %r got %r" % (new, M.mapping))
+    return True
 
 
 def boolean_form(M_canon, spin):
@@ -181,6 +206,7 @@ def _run_enum(qv, spec, rec):
     if M is None:
         rec.add("skipped_constraint_too_big")
         return
+    remapped = maybe_remap(M, spec)
     snap = gen.snapshot(M)
     mcanon = ref.canon(dict(M), spin_src)
     bform = boolean_form(mcanon, spin_src)
@@ -195,6 +221,8 @@ def _run_enum(qv, spec, rec):
                "anc=%d" % min(a, 6)]
     if spec.get("constraint"):
         classes.append("with_constraint")
+    if remapped:
+        classes.append("after_set_mapping")
     mp = M.mapping
     rmp = M.reverse_mapping
     if sorted(mp.values()) != list(range(n)):
@@ -232,6 +260,13 @@ def _run_enum(qv, spec, rec):
         am = np.nonzero(flat == flat.min())[0][:4].tolist()
         rows += [(int(r), True) for r in am]
     rows += [(r % (1 << (n + a)), False) for r in spec["rows"]]
+    # model part all zeros / all ones combined with a single ancilla bit set or all of them (inconsistent
+    # ancillas, where the boolean / spin form of the *whole* vector is what makes the form unambiguous)
+    ones = (1 << n) - 1
+    for j in range(min(a, 3)):
+        rows += [((1 << (n + j)), False), (ones | (1 << (n + j)), False)]
+    if a:
+        rows += [((((1 << a) - 1) << n), False), (ones, False)]
     contiguous = anc == list(range(n, n + a))
     for r, is_argmin in rows:
         x = r & ((1 << n) - 1)
@@ -286,6 +321,7 @@ def cert_strategy():
                 "lam": lam_strategy(),
                 "sample_seed": st.integers(0, 2 ** 31 - 1),
                 "rows": st.just([0]),
+                "remap": gen.pick((False, 3), (True, 1)),
             })
         return st.sampled_from(BIG_POOLS).flatmap(
             lambda p: st.integers(4, 12).map(lambda n: p[:n])).flatmap(for_labels)
@@ -315,6 +351,7 @@ def _run_cert(qv, pp, spec, rec):
     kind = spec["kind"]
     spin_src = gen.is_spin(kind)
     M = lib(build_model, qv, spec, what="build")
+    remapped = maybe_remap(M, spec)
     snap = gen.snapshot(M)
     mcanon = ref.canon(dict(M), spin_src)
     bform = boolean_form(mcanon, spin_src)
